@@ -21,10 +21,14 @@
    The code is modelled as it is:
      * GetKnowledgeBase creates the (empty) knowledge base of a key before the resource is judged, so a rejected
        resource on a new key leaves an empty knowledge base behind;
-     * the Deleted flag is not part of the stored stream, so store+load
-       (overwrite) clears it (D8);
-     * uuid.New() is modelled by a counter: tombstone n is "Deleted_" followed by
-       n marks; user rule names are assumed not to start with "Deleted_".
+     * the Deleted flag is not part of the stored stream; BuildKnowledgeBase sets it from the stored rule name:
+       isTombstoneName(RuleName), "Deleted_" followed by a UUID - the name RemoveRuleEntry gives a removed rule
+       (engine commit 01c7ce8).  In the model a tombstone name is one that starts with "Deleted_";
+     * uuid.New() is modelled by a counter: tombstone n is "Deleted_" followed by n marks.
+   ASSUMPTION (op_user, the engine's own naming convention): rule names given to the builder do not start with
+   "Deleted_".  It stands for two facts about the code: a UUID never collides with a chosen name, and a user rule
+   whose name literally is a tombstone name ("Deleted_" + a well-formed UUID) would be read as REMOVED when its
+   knowledge base is loaded.
    Definitions only; proofs are in coq/proofs/LibraryProofs.v. *)
 From Grule Require Import Base EngineGen EngineAbs.
 Open Scope Z_scope.
@@ -97,8 +101,9 @@ Definition set_flags (r d : bool) (x : lentry) : lentry :=
 (* KnowledgeBase.Clone / RuleEntry.Clone: Retracted := false, Deleted copied; KnowledgeBase.Reset does the same in place *)
 Definition clone_kb (es : kb) : kb := map (fun x => set_flags false (le_deleted x) x) es.
 
-(* MakeCatalog + BuildKnowledgeBase: names and trees come back, neither flag is in the stream (D8) *)
-Definition reload_kb (es : kb) : kb := map (set_flags false false) es.
+(* MakeCatalog + BuildKnowledgeBase: names and trees come back; Retracted is not in the stream; Deleted is read off the
+   stored rule name (isTombstoneName) *)
+Definition reload_kb (es : kb) : kb := map (fun x => set_flags false (negb (is_user (e_name (le_e x)))) x) es.
 
 (* KnowledgeBase.RetractRule: by RuleName *)
 Definition retract_kb (n : string) (es : kb) : kb :=
@@ -223,20 +228,10 @@ Definition probe_lib (fuel : nat) (f : F) (s : state) (k : string) : option (lis
   | None => None
   end.
 
-(* ---- side conditions ---- *)
-(* rule names given to the builder are not tombstone names (a UUID never collides with a chosen name) *)
+(* ---- side condition ---- *)
+(* rule names given to the builder are not tombstone names (see ASSUMPTION above) *)
 Definition op_user (o : op) : bool :=
   match o with OBuild _ rs => forallb (fun r => is_user (r_name r)) rs | _ => true end.
-
-(* D8 region: the stored knowledge base holds a removed rule *)
-Definition op_safe (s : state) (o : op) : bool :=
-  match o with OStoreLoad k => forallb (fun x => negb (le_deleted x)) (lib_kb s k) | _ => true end.
-
-Fixpoint safe_history (s : state) (ops : list op) : bool :=
-  match ops with
-  | [] => true
-  | o :: t => op_safe s o && safe_history (fst (step s o)) t
-  end.
 
 End Lib.
 
